@@ -125,9 +125,13 @@ func (rw *rewriter) funcItems(api string, fis []FuncItem) []FuncItem {
 	// surviving positions; inserted arguments are always wrapped (g.Add)
 	as := make([]Arg, len(fis))
 	wrapped := map[Arg]bool{}
+	hoist := map[Arg]bool{}
 	for i, fi := range fis {
 		as[i] = rw.arg(fi.A)
 		wrapped[as[i]] = fi.Wrapped
+		if fi.Hoist {
+			hoist[as[i]] = true
+		}
 	}
 	if rw.args != nil {
 		as = rw.args(api, as)
@@ -141,7 +145,7 @@ func (rw *rewriter) funcItems(api string, fis []FuncItem) []FuncItem {
 		if s, ok := a.(*Stmt); !w && (!ok || len(s.Items) == 0) {
 			w = true
 		}
-		out[i] = FuncItem{Wrapped: w, A: a}
+		out[i] = FuncItem{Wrapped: w, A: a, Hoist: w && hoist[a]}
 	}
 	return out
 }
